@@ -469,6 +469,104 @@ _COMMON_STUB = ["action chooser (seeded adversarial scheduler instead of a train
                 "EDA PDN data files (random stub npy)"]
 
 
+# ----------------------------------------------------------------------------------------------------
+# MDCPDP with several depots (hand-supplied per-depot capacities): invariant-only episodes
+# ----------------------------------------------------------------------------------------------------
+MD_STRATEGIES = ["random", "pickups_high", "pickups_low", "depots_first", "deliveries_first"]
+
+
+def _plan_mdcpdp_multi(rc, st):
+    """The generator emits capacity [B,1] (recorded defect: the environment reads the depot count from it), so the
+    multi-depot case is driven with hand-supplied instances in the per-depot format capacity [B, num_depot] (equal
+    values: "the" vehicle capacity is then unambiguous).  No reference model of the multi-vehicle semantics is
+    assumed: only what holds under every reading is checked on the executed action sequence."""
+    D = rc.choice([2, 2, 3, 4, 5])
+    h = rc.choice([1, 2, 2, 3, 4])
+    c = rc.choice([1, 1, 2, 3])
+    cfg = {"env": "mdcpdp", "n": 2 * h,
+           "gen": {"num_loc": 2 * h, "num_depot": D, "depot_mode": rc.choice(["single", "multiple"])},
+           "kw": {"reward_mode": rc.choice(["minmax", "minsum", "lateness"]),
+                  "problem_mode": rc.choice(["close", "open"]), "dist_mode": rc.choice(["L1", "L2"])}}
+    env = E.make_env(cfg)
+    B = rc.choice([1, 2, 3])
+    rows = E.gen_rows(env, cfg, B, st.torch_seed("instances"))
+    for r in rows:
+        r["capacity"] = torch.full((D,), c, dtype=r["capacity"].dtype)
+    return {"scenario": "mdcpdp_multi", "cfg": cfg, "instances": [E.enc_row(r) for r in rows],
+            "strategies": [rc.choice(MD_STRATEGIES) for _ in range(B)], "perturbs": [],
+            "D": D, "half": h, "cap": c, "source": "hand:mdcpdp_per_depot_capacity"}
+
+
+def _exec_mdcpdp_multi(run):
+    from .. import drive as D_   # (D is the number of depots below)
+
+    p = run.plan
+    cfg, D, h, c = p["cfg"], p["D"], p["half"], p["cap"]
+    name = "mdcpdp"
+    rows = [E.dec_row(r) for r in p["instances"]]
+    B = len(rows)
+    with run.guard(name, "construct env"):
+        env = E.make_env(cfg)
+    with run.guard(name, "reset", B=B):
+        td = E.reset(env, cfg, rows)
+    hist = [[] for _ in range(B)]
+    bound = 4 * (D + 2 * h) + 10
+    run.probe("mdcpdp_multi_depot")
+    if D > h:
+        run.probe("mdcpdp_more_depots_than_orders")
+    for t in range(bound):
+        done = E.done_vec(td)
+        if bool(done.all()):
+            break
+        acts = []
+        for r in range(B):
+            opts = D_.admitted(td["action_mask"][r])
+            if bool(done[r]):
+                acts.append(opts[0] if opts else 0)
+                continue
+            if not opts:
+                run.probe("mdcpdp_multi_dead_end")   # termination / dead ends are C02's ground
+                return
+            pick_ = [a for a in opts if D <= a < D + h]
+            deli_ = [a for a in opts if a >= D + h]
+            depo_ = [a for a in opts if a < D]
+            s = p["strategies"][r]
+            pref = {"pickups_high": pick_[::-1], "pickups_low": pick_, "depots_first": depo_,
+                    "deliveries_first": deli_}.get(s, [])
+            if pref and run.chooser.pick(4) != 0:
+                a = pref[0]
+            else:
+                a = opts[run.chooser.pick(len(opts))]
+            # ---- what holds under every reading of the multi-depot problem ------------------------------
+            why = None
+            if a >= D and a in hist[r]:
+                why = "visited_once"
+            elif a >= D + h and (a - h) not in hist[r]:
+                why = "pickup_before_delivery"
+            elif D <= a < D + h:
+                on_board = sum(1 for x in hist[r] if D <= x < D + h) - sum(1 for x in hist[r] if x >= D + h)
+                if on_board + 1 > c:
+                    why = "carry_capacity"
+            if why is not None:
+                run.violate(name, "infeasible_action_admitted",
+                            f"row {r} tick {t} ({D} depots, {h} orders, capacity {c} per depot): mask admits action {a} "
+                            f"which violates '{why}' after {hist[r]}", constraint=why, tick=t, action=a,
+                            history=hist[r], cfg=cfg, instance=E.enc_row(rows[r]), num_depot=D)
+                raise StopRun()
+            hist[r].append(a)
+            acts.append(a)
+        with run.guard(name, "step", tick=t, actions=acts):
+            td = E.step(env, td, torch.tensor(acts, dtype=torch.long))
+        run.tick()
+        run.state(name, D, h, c, tuple(hist[0][-3:]))
+    run.log.add("mdcpdp_multi", D, h, c, hist)
+    run.nontrivial = True
+    if any(sum(1 for x in hh if D <= x < D + h) and max(
+            sum(1 for x in hh[:i + 1] if D <= x < D + h) - sum(1 for x in hh[:i + 1] if x >= D + h)
+            for i in range(len(hh))) >= c for hh in hist):
+        run.probe("mdcpdp_multi_full_vehicle")
+
+
 class C01:
     prop = "C01"
     level = "exploration"
@@ -481,17 +579,25 @@ class C01:
     components_real = _COMMON_REAL
     components_stub = _COMMON_STUB[:1]
     assumptions = ["float band tau = 1e-5*max(1, scale): actions inside the band are never flagged",
-                   "MDCPDP under its one-depot reading (DESIGN 7.11)", "reference models in rlsim/ref/routing.py are "
+                   "MDCPDP under its one-depot reading (DESIGN 7.11); with several depots (4% of the runs, hand-supplied "
+                   "per-depot capacities) only reading-independent invariants: customers once, pickup before delivery, "
+                   "orders on board <= capacity", "reference models in rlsim/ref/routing.py are "
                    "the independent problem definitions"]
     required_probes = ["row_padded", "unequal_finish"]
     CANARIES = CE.C01_CANARIES
 
     @staticmethod
     def make_plan(run_seed, tier):
+        st = Streams(run_seed)
+        r0 = st.get("scenario")
+        if r0.random() < 0.04 and "mdcpdp" in E.only_filter(E.ROUTING):
+            return _plan_mdcpdp_multi(r0, st)
         return _plan(run_seed, tier, E.ROUTING, ["reindex", "snapshot", "alternate", "reuse_store"])
 
     @staticmethod
     def execute(run):
+        if run.plan.get("scenario") == "mdcpdp_multi":
+            return _exec_mdcpdp_multi(run)
         _execute(run, {"c01"})
 
     sample = staticmethod(_sample)
